@@ -123,11 +123,11 @@ theorem step_throw_nil (code : Code) (lim : Limits) (s : VMState) (sp : Span)
     (hs : s.stack = []) : step code lim s .throw sp = .panic "stack underflow" s := by
   simp [step, pop1, hs]
 
-/-- `hostCall`: pops the argument count and that many arguments, pushes one result. -/
+/-- `hostCall`: pops the argument count and that many arguments, pushes `hostResults name` results. -/
 theorem step_hostCall (code : Code) (lim : Limits) (s : VMState) (name : String) (sp : Span)
     (argc : I64) (o : Option Org) (rest : List SVal) (hs : s.stack = ⟨.int argc, o⟩ :: rest) :
     Sat3 (fun s' => argc.toNat ≤ rest.length ∧
-            s'.stack.length + argc.toNat = rest.length + 1 ∧ s'.calls = advCalls s.calls ∧ Keeps s s')
+            s'.stack.length + argc.toNat = rest.length + hostResults name ∧ s'.calls = advCalls s.calls ∧ Keeps s s')
          (fun _ s' => argc.toNat ≤ rest.length ∧
             s'.stack.length + argc.toNat = rest.length ∧ s'.calls = s.calls ∧ Keeps s s')
          (fun why => (why = "stack underflow" → rest.length < argc.toNat) ∧ NoBad why)
@@ -141,7 +141,7 @@ theorem step_hostCall (code : Code) (lim : Limits) (s : VMState) (name : String)
     simp only [runM_def]
     repeat' split
     all_goals try (unfold ctlToRes; split)
-    all_goals simp_all [Sat3, NoBad, Keeps]
+    all_goals simp_all [Sat3, NoBad, Keeps, hostResults]
     all_goals try omega
     all_goals grind
   · rename_i hp
